@@ -77,3 +77,54 @@ def oracle_wingbox_untwisted(R, tier, seed):
                 R.mark("c01wbflat", kind, nx, ny)
     finally:
         core.FD_ENABLED = saved
+
+
+def oracle_multi_surface(R, tier, seed):
+    """every explicit component of a THREE-surface AeroPoint (surfaces of different sizes, one of them a right-hand half)
+    that takes the list of surfaces is re-run on its own with the inputs it had in the converged model; the Jacobian it
+    reports is recorded for the finite-difference oracle (which must run after this one).  The index arithmetic over
+    the list of surfaces (offsets into the global panel / evaluation-point arrays) is only right or wrong from the
+    third surface on: one- and two-surface set-ups cannot tell `offset = n` from `offset += n`."""
+    import numpy as np, warnings
+    import openmdao.api as om
+    from .. import gen, aero as A
+    O = R.oracle("three-surface-components.recorded")
+    rng = gen.stable_rng(seed, "c01multi")
+    configs = [(((2, 5), "left"), ((3, 3), "left"), ((3, 4), "right"))]
+    if tier != "quick":
+        configs.append((((3, 3), "left"), ((2, 3), "right"), ((2, 5), "full"), ((4, 3), "left")))
+    for cfg in configs:
+        surfs = []
+        for k, ((nx, ny), kind) in enumerate(cfg):
+            m = gen.rand_mesh(rng, nx, ny, kind)
+            m[:, :, 0] += 6.0 * k; m[:, :, 2] += 0.8 * k
+            surfs.append(A.aero_surface(m, "s%d" % k, kind != "full"))
+        for rotational in (False, True):
+            p = A.run(A.build_aero(surfs, geom=False, alpha=float(rng.uniform(1, 8)), beta=float(rng.uniform(-5, 5)) if any(k == "full" for _, k in cfg) else 0.0,
+                                   rotational=rotational, omega=rng.normal(size=3) * 0.1 if rotational else None))
+            for comp in p.model.system_iter(include_self=False, recurse=True, typ=om.ExplicitComponent):
+                try:
+                    sl = comp.options["surfaces"]
+                except KeyError:
+                    continue
+                if len(sl) != len(cfg):
+                    continue
+                if type(comp).__name__ == "EvalVelMtx" and comp.options["eval_name"] == "force_pts":
+                    # force points lie ON their own bound vortex, where the kernel is cut off: perturbing the vectors alone
+                    # (which the model never does: they move with the mesh) crosses the cut-off, so a finite difference of
+                    # the component on its own is meaningless there; the collocation-point instance is the same class
+                    continue
+                ins = {n: np.array(comp._inputs[n]).copy() for n in comp._var_rel_names["input"]}
+                # integer / discrete inputs do not occur in these components
+                opts = {k: comp.options[k] for k in comp.options if k not in ("assembled_jac_type", "distributed", "run_root_only", "always_opt", "use_jit", "default_shape", "derivs_method")}
+                try:
+                    new = type(comp)(**opts)
+                    with warnings.catch_warnings():
+                        warnings.simplefilter("ignore")
+                        core.run_comp(new, ins)
+                    O["cases"] += 1; O["ok"] += 1
+                    R.mark("c01multi", type(comp).__name__, len(cfg), rotational)
+                    R.count("multi-surface/%s" % type(comp).__name__)
+                except Exception as e:
+                    O["cases"] += 1
+                    O["failures"].append({"key": "C01:oracle:three-surface-rerun-failed(%s)" % type(comp).__name__, "case": repr(e)[:300]})
